@@ -4,7 +4,10 @@ package main
 // pinned tree either).
 
 import (
+	"fmt"
 	"go/ast"
+	"go/token"
+	"go/types"
 	"strings"
 )
 
@@ -142,4 +145,306 @@ func c02LinkedIntoAllStore(p *Prog, r *Report, rule string) {
 		}
 	}
 	r.Check(ok, rule, cons, p.pos(fi.Decl), "the link of every stored node is pushed into the all-store", "a version is stored in its transaction without its link in the all-store ("+bad+"): ReadUncommitted readers never see it and the collector never reclaims it")
+}
+
+// ---- rules from the sixth round of seeded changes ---------------------------------------------------------------
+
+func init() {
+	wrap := func(id string, extra func(p *Prog, r *Report)) {
+		old := registry[id]
+		registry[id] = func(p *Prog, r *Report) {
+			old(p, r)
+			extra(p, r)
+		}
+	}
+	wrap("C16", func(p *Prog, r *Report) {
+		r.Rule("C16.g", "the running flag is kept only by a run that is up: after Run has taken the flag, every exit either has installed the job channel (Stop has something to close) or gives the flag back")
+		c16RunKeepsFlagOnlyWhenUp(p, r, "C16.g")
+	})
+	wrap("C11", func(p *Prog, r *Report) {
+		r.Rule("C11.n", "the adapter decides the class of an error with errors.Is / errors.As only: it does not walk the chain by hand (errors.Unwrap stops at joined and multi-%w errors) and does not compare an error with a sentinel by ==")
+		c11ClassByIsOnly(p, r, "C11.n")
+	})
+	for id, rule := range map[string]string{"C10": "C10.m", "C12": "C12.j"} {
+		id, rule := id, rule
+		wrap(id, func(p *Prog, r *Report) {
+			r.Rule(rule, "the part of the content that reached the full directory stays readable for the retry: content files are created read-write, and on the not-enough-space path the created file is neither closed nor removed and the fields of the retry request are not replaced after it was built")
+			c10PrefixStaysReadable(p, r, rule)
+		})
+	}
+}
+
+// c16RunKeepsFlagOnlyWhenUp (seeded C16-B, round 6): an early return of Run between taking the running flag and
+// installing context / channel / workers leaves the pool "running" with nothing to stop: the next Stop closes a nil or
+// already closed channel, the next Run is refused.
+func c16RunKeepsFlagOnlyWhenUp(p *Prog, r *Report, rule string) {
+	fi := p.Func(kPoolRun)
+	if fi == nil {
+		r.Undecided(rule, kPoolRun, "", "Pool.Run not found")
+		return
+	}
+	info := fi.Pkg.TypesInfo
+	f := p.FlatInl(fi)
+	// the states after the flag was taken: the false edge of `!p.runM.TryLock()` / the true edge of `p.runM.TryLock()`
+	var after []int
+	for _, n := range f.Nodes {
+		if !n.IsCond {
+			continue
+		}
+		e := ast.Unparen(n.Ast.(ast.Expr))
+		neg := false
+		if u, ok := e.(*ast.UnaryExpr); ok && u.Op == token.NOT {
+			neg, e = true, ast.Unparen(u.X)
+		}
+		c, ok := e.(*ast.CallExpr)
+		if !ok {
+			continue
+		}
+		if op := p.lockOpOf(fi.Pkg, c); op == nil || !op.Try || op.Class != clsRunM {
+			continue
+		}
+		for _, ed := range n.Succs {
+			if (ed.Label == 2) == neg {
+				after = append(after, ed.To)
+			}
+		}
+	}
+	cons := kPoolRun + "#flag-kept-only-when-up"
+	if len(after) == 0 {
+		r.Undecided(rule, cons, p.pos(fi.Decl), "the try-lock of the running flag was not found in Run")
+		return
+	}
+	ok := func(n *GNode) bool {
+		if n.Ast == nil {
+			return false
+		}
+		// the channel is installed ...
+		if as, isAs := n.Ast.(*ast.AssignStmt); isAs {
+			for _, l := range as.Lhs {
+				if sel, isSel := ast.Unparen(l).(*ast.SelectorExpr); isSel && sel.Sel.Name == poolFields.Ch {
+					if fv, isVar := info.Uses[sel.Sel].(*types.Var); isVar && fv.IsField() {
+						return true
+					}
+				}
+			}
+		}
+		// ... or the flag is given back
+		for _, c := range callsIn(n.Ast, false) {
+			if op := p.lockOpOf(fi.Pkg, c); op != nil && !op.Acquire && op.Class == clsRunM {
+				return true
+			}
+		}
+		return false
+	}
+	reach := f.Reach(after, ok, nil)
+	bad := ""
+	for _, s := range after {
+		if !ok(f.Nodes[s]) {
+			reach[s] = true
+		}
+	}
+	for _, e := range f.Exits() {
+		if reach[e] && !ok(f.Nodes[e]) && !f.isNoReturnExit(f.Nodes[e]) {
+			bad = p.pos(f.Nodes[e].Ast)
+		}
+	}
+	r.Check(bad == "", rule, cons, p.pos(fi.Decl), "after the flag is taken every exit has installed the channel or released the flag",
+		"Run can return at "+bad+" holding the running flag without having installed the job channel: Stop then closes a nil (or already closed) channel and panics, and no later Run is accepted")
+}
+
+// c11ClassByIsOnly (seeded C11-B, round 6).
+func c11ClassByIsOnly(p *Prog, r *Report, rule string) {
+	n := 0
+	for _, k := range sortedFuncKeys(p) {
+		fi := p.Funcs[k]
+		if fi.Decl == nil || fi.Decl.Body == nil || shortPath(fi.Pkg.PkgPath) != pkgAdapterErr {
+			continue
+		}
+		n++
+		info := fi.Pkg.TypesInfo
+		sent := rootSentinels(p)
+		isSentinel := func(e ast.Expr) bool {
+			switch x := ast.Unparen(e).(type) {
+			case *ast.Ident:
+				_, ok := sent[info.Uses[x]]
+				return ok
+			case *ast.SelectorExpr:
+				_, ok := sent[info.Uses[x.Sel]]
+				return ok
+			}
+			return false
+		}
+		bad, at := "", ast.Node(nil)
+		ast.Inspect(fi.Decl.Body, func(x ast.Node) bool {
+			switch y := x.(type) {
+			case *ast.CallExpr:
+				if isFunc(info, y, "errors", "Unwrap") {
+					bad, at = "walks the chain with errors.Unwrap", y
+				}
+			case *ast.BinaryExpr:
+				if (y.Op == token.EQL || y.Op == token.NEQ) && (isSentinel(y.X) || isSentinel(y.Y)) {
+					bad, at = "compares an error with a sentinel by "+y.Op.String(), y
+				}
+			case *ast.SwitchStmt:
+				if y.Tag != nil {
+					if tv, ok := info.Types[y.Tag]; ok && isErrorType(tv.Type) {
+						for _, cl := range y.Body.List {
+							if cc, isCC := cl.(*ast.CaseClause); isCC {
+								for _, ce := range cc.List {
+									if isSentinel(ce) {
+										bad, at = "switches on an error value against sentinels (identity comparison)", y
+									}
+								}
+							}
+						}
+					}
+				}
+			}
+			return true
+		})
+		if bad != "" {
+			r.Viol(rule, k+"#class-by-errors.Is", p.pos(at), k+" "+bad+": an error that joins or multi-wraps a sentinel (errors.Join, two %w) is sent without its class and arrives as ErrUnknown")
+		}
+	}
+	if n > 0 {
+		r.Hold(rule, "adapter-functions", "", fmt.Sprintf("%d functions of the adapter inspected", n))
+	} else {
+		r.Undecided(rule, "adapter-functions", "", "no function of the error adapter found")
+	}
+}
+
+// c10PrefixStaysReadable (seeded C10-A, C10-B, round 6).
+func c10PrefixStaysReadable(p *Prog, r *Report, rule string) {
+	// (1) utils/os.Create opens read-write
+	if cr := p.Func("internal/utils/os.Create"); cr != nil {
+		info := cr.Pkg.TypesInfo
+		good, seen := true, false
+		detail := ""
+		ast.Inspect(cr.Decl.Body, func(x ast.Node) bool {
+			c, ok := x.(*ast.CallExpr)
+			if !ok {
+				return true
+			}
+			switch {
+			case isFunc(info, c, "os", "Create"):
+				seen = true
+			case isFunc(info, c, "os", "OpenFile") && len(c.Args) == 3:
+				seen = true
+				if v, isC := constInt(info, c.Args[1]); isC {
+					// O_RDONLY = 0, O_WRONLY = 1, O_RDWR = 2 in the low bits
+					if v&3 != 2 {
+						good = false
+						detail = "os.OpenFile is called without O_RDWR"
+					}
+				} else {
+					good = false
+					detail = "the flags of os.OpenFile are not a constant the rule can read"
+				}
+			}
+			return true
+		})
+		if !seen {
+			r.Undecided(rule, "internal/utils/os.Create#read-write", p.pos(cr.Decl), "neither os.Create nor os.OpenFile is called")
+		} else {
+			r.Check(good, rule, "internal/utils/os.Create#read-write", p.pos(cr.Decl), "content files are created read-write",
+				detail+": the file that took the first part of a content cannot be read back when the write continues in another directory (the retry fails with 'bad file descriptor' although there is room)")
+		}
+	} else {
+		r.Undecided(rule, "internal/utils/os.Create", "", "utils/os.Create not found")
+	}
+	// (2) on the not-enough-space path of content.Store the file stays open and in place, the request stays as built
+	cs := p.Func(kContentStore)
+	if cs == nil {
+		r.Undecided(rule, kContentStore, "", "content.Store not found")
+		return
+	}
+	info := cs.Pkg.TypesInfo
+	flats := []*Flat{p.FlatInl(cs)}
+	ast.Inspect(cs.Decl.Body, func(x ast.Node) bool {
+		if fl, ok := x.(*ast.FuncLit); ok {
+			flats = append(flats, p.NewFlatInl(cs, fl.Body))
+		}
+		return true
+	})
+	// the created file
+	filePath := ""
+	for _, c := range flats[0].CallSites("internal/utils/os.Create") {
+		if as, ok := flats[0].Nodes[c.Node].Ast.(*ast.AssignStmt); ok && len(as.Lhs) >= 1 {
+			filePath = flats[0].CanonPath(as.Lhs[0])
+		}
+	}
+	found := false
+	for _, g := range flats {
+		var lits []int
+		for _, n := range g.Nodes {
+			if n.Ast == nil {
+				continue
+			}
+			has := false
+			ast.Inspect(n.Ast, func(x ast.Node) bool {
+				if cl, ok := x.(*ast.CompositeLit); ok {
+					if tv, ok := info.Types[cl]; ok && strings.HasSuffix(tv.Type.String(), tNES) {
+						has = true
+					}
+				}
+				return true
+			})
+			if has {
+				lits = append(lits, n.ID)
+			}
+		}
+		if len(lits) == 0 {
+			continue
+		}
+		found = true
+		cons := kContentStore + "#prefix-file-kept-for-the-retry"
+		// nodes on a path through the construction of the request
+		fwd := g.Reach(lits, nil, nil)
+		onPath := func(id int) bool {
+			if fwd[id] {
+				return true
+			}
+			back := g.Reach([]int{id}, nil, nil)
+			for _, l := range lits {
+				if back[l] {
+					return true
+				}
+			}
+			return false
+		}
+		bad, at := "", ast.Node(nil)
+		for _, n := range g.Nodes {
+			if n.Ast == nil || !onPath(n.ID) {
+				continue
+			}
+			for _, c := range callsIn(n.Ast, false) {
+				if sel, ok := ast.Unparen(c.Fun).(*ast.SelectorExpr); ok && sel.Sel.Name == "Close" && filePath != "" && g.CanonPath(sel.X) == filePath {
+					bad, at = "closes the created file", c
+				}
+				if p.callIs(cs.Pkg, c, "internal/utils/os.Remove") || isFunc(info, c, "os", "Remove") {
+					bad, at = "removes the created file", c
+				}
+			}
+			if as, ok := n.Ast.(*ast.AssignStmt); ok {
+				for _, l := range as.Lhs {
+					if sel, ok := ast.Unparen(l).(*ast.SelectorExpr); ok && (sel.Sel.Name == "Start" || sel.Sel.Name == "Middle" || sel.Sel.Name == "End") {
+						if tv, ok := info.Types[sel.X]; ok && strings.HasSuffix(tv.Type.String(), tNES) {
+							bad, at = "replaces "+sel.Sel.Name+" of the retry request after it was built", as
+						}
+					}
+				}
+			}
+		}
+		// (a close of the file on a path that also builds the request: only when both are on one path; the plain
+		// "else close" branch is not)
+		if bad != "" {
+			// confirm that the offending node and the construction are on one path in either order: done by onPath
+			r.Viol(rule, cons, p.pos(at), "on the path that answers not-enough-space content.Store "+bad+": the bytes already written there are not replayed, the value stored in the next directory silently lacks its beginning")
+		} else {
+			r.Hold(rule, cons, p.pos(cs.Decl), "the created file stays open and in place, the request is handed out as built")
+		}
+	}
+	if !found {
+		r.Undecided(rule, kContentStore+"#prefix-file-kept-for-the-retry", p.pos(cs.Decl), "the construction of the retry request was not found")
+	}
 }
